@@ -146,7 +146,9 @@ def program(spec: EnumSpec, pname, tier):
                           body="    let mut t = %s::filled(7u8);\n    t[%s::%s] = nd_u8();" % (T, E, v.ident),
                           should_panic=True, kind="symbolic", desc="writing table[%s] (disabled variant) must panic" % v.ident,
                           bound={}, functions=fns))
-    return Program(name=pname, enum_src=src, helper_src=helper, harnesses=hs, summary=render_enum(spec), role=spec.role, note=spec.note)
+    # public signatures the property fixes: one constructor argument / one slot per ENABLED variant, indexable by the enum
+    api = "pub fn api_table_shape() {\n    let t: %s<u8> = %s::new(%s);\n    let _: &u8 = &t[key(0)];\n}\n" % (T, T, ", ".join("%du8" % j for j in range(m)))
+    return Program(name=pname, enum_src=src, helper_src=helper, api_src=api, harnesses=hs, summary=render_enum(spec), role=spec.role, note=spec.note)
 
 
 def build(tier, seed):
